@@ -128,11 +128,17 @@ class AFMWriter(ModelToText):
             data = data.value.upper()
 
         if node.left and node.right:
-            result = self.recursive_constraint_read(
-                node.left) + data + self.recursive_constraint_read(node.right)
+            result = self._read_operand(node.left) + data + self._read_operand(node.right)
         elif node.left and not node.right:
-            result = data + self.recursive_constraint_read(node.left)
+            result = data + self._read_operand(node.left)
         else:
             result = " " + data + " "
 
+        return result
+
+    def _read_operand(self, node: Node) -> str:
+        """Operands that are operations are written in parentheses to keep the structure."""
+        result = self.recursive_constraint_read(node)
+        if node.is_op():
+            result = " (" + result.strip() + ") "
         return result
